@@ -34,7 +34,7 @@ type Case struct {
 
 var prop = hx.Prop[Case]{
 	ID: pid, Name: "limit",
-	Rule: "limit M in 200..65536 (thorough: up to 1 MiB); message sizes concentrated at M-3..M+3, M/2, 2M, 10M; SIZE parameter absent, " +
+	Rule: "limit M in 200..65536 (thorough: up to 1 MiB); message sizes concentrated at M-3..M+3, M/2, 2M, 10M, and M + 1..5 MiB; SIZE parameter absent, " +
 		"truthful, understated, overstated but <= M, > M, non-numeric; oracle with two size measures lo (after un-stuffing, CRLF->LF) and hi " +
 		"(bytes on the wire): SIZE > M -> refused at MAIL; lo > M -> refusal after the final dot and store unchanged; hi <= M -> 250 and " +
 		"stored; in between either; the follow-up small transaction on the same connection must succeed; non-trivial = lo > M without a " +
@@ -54,6 +54,9 @@ var prop = hx.Prop[Case]{
 			c.Target = 2 * c.Limit
 		case 2:
 			c.Target = 10 * c.Limit
+		case 3:
+			// far beyond the limit: whatever the server does with the excess, it must do it to the end
+			c.Target = c.Limit + rapid.SampledFrom([]int{1 << 20, 1<<20 + 1, 2 << 20, 5 << 20}).Draw(t, "far")
 		default:
 			c.Target = c.Limit + rapid.IntRange(-3, 3).Draw(t, "delta")
 		}
